@@ -139,6 +139,24 @@ def m_attempt_bound(run, max_attempts):
     return f
 
 
+def m_no_retry_after_fatal(run):
+    """C03: a non-retryable error (anything but the listed stream errors) is never retried."""
+    gf = (getattr(run, 'spec', None) or {}).get('get_fault')
+    if not gf or gf.get('exc') not in ('fatal', 'oserror'):
+        return []
+    order, per = [], {}
+    for r in run.client.calls('GetObject'):
+        k = (r['kwargs'].get('Key'), r['kwargs'].get('Range'))
+        if k not in per:
+            order.append(k)
+        per[k] = per.get(k, 0) + 1
+    i = gf.get('range_idx', 0)
+    if i < len(order) and per[order[i]] > 1:
+        return [f'{per[order[i]]} GetObject requests for {order[i]} although its first attempt failed with a non-retryable '
+                f'{"OSError (PermissionError)" if gf["exc"] == "oserror" else "error"} mid-stream']
+    return []
+
+
 # ---------------------------------------------------------------- C05
 def m_multipart_discipline(run):
     f = []
